@@ -301,10 +301,13 @@ CLAIMS = {
         "technique": "Lean 4 lemmas on the PEG-engine model with an abstract custom matcher + emission-trace stream with registered regexes + call-log / metamorphic oracle",
     },
     "C02": {
-        "text": "compile_correct (DS/Props/C02.lean, from run_compile in DS/Proofs/FragCompile.lean): for EVERY source tree of the fragment "
-                "{numbers, all 15 binary operators, unary minus, the ternary, ||, &&} the code the compiler emits, run by the VM model's "
-                "dispatch loop, ends with exactly the value — or exactly the error — and the heap that the definitional, syntax-directed "
-                "semantics evalF prescribes; run_compile is the compositional form (from ANY frame and surrounding stack a "
+        "text": "compile_correct / program_correct (DS/Props/C02.lean, from run_compile in DS/Proofs/FragCompile.lean and run_stmts in "
+                "DS/Proofs/FragStmts.lean): for EVERY source tree of the fragment {numbers, all 15 binary operators, unary minus, the "
+                "ternary, ||, &&, variable references, assignments (as expressions), statement sequences s1; ...; sn} the code the "
+                "compiler emits, run by the VM model's dispatch loop, ends with exactly the value (of the last statement) — or exactly "
+                "the first error — and the heap (which holds the variables) that the definitional, syntax-directed semantics evalF / "
+                "evalS prescribes; a name is in the fragment when the context's own table binds it to a plain value (unbound names — "
+                "enclosing scopes, globals, builtins — and computed values are outside it); run_compile is the compositional form (from ANY frame and surrounding stack a "
                 "sub-expression's code pushes its value on the untouched stack and continues behind itself: jump offsets and stack "
                 "balance of every composition, by induction over the tree, unbounded depth). Ties: compile stream (the theorem's "
                 "compiler = the real compiler's bytecode dump, instruction by instruction, on printed trees); vm stream (dispatch loop = "
@@ -314,8 +317,8 @@ CLAIMS = {
                 "trees printed by an independent printer that follows the published grammar's precedence levels with random legal "
                 "whitespace and redundant parentheses, in sequences of 1-3 programs on one VM (value / error-ness per program, "
                 "variables after the sequence). Eight parser/compiler defects found this way were repaired.",
-        "note": TB + "The theorem covers the expression fragment without variables; statements, loops, functions, computed values, "
-                     "templates and containers are decided by the ref stream against the definitional semantics (a partial def, "
+        "note": TB + "The theorems cover expressions, variables bound to plain values, assignments and statement sequences; loops, "
+                     "conditionals as statements, functions, computed values, templates and containers are decided by the ref stream against the definitional semantics (a partial def, "
                      "executable, not a proof object). Primitive operator tables are shared between the definitional semantics and "
                      "the VM model (they are C01's totality theorems' and the vm stream's subject). The printer is the statement of "
                      "the grammar's precedence and of where white space is legal.",
